@@ -45,7 +45,7 @@ def analyse_all_closure(F, clo, map_term, weight_term):
         rel0 = I.norm_rel(r, True)
         if rel0 is None or rel0[0] != "Eq":
             return f"closure result is {P.show(r)[:60]}"
-        x0, y0 = P.strip(rel0[1], calls=False), P.strip(rel0[2], calls=False)
+        x0, y0 = I.unopt(rel0[1]), I.unopt(rel0[2])
         if y0[0] == "call":
             x0, y0 = y0, x0
         if not (y0[0] == "agg" and y0[1] == "adt:std::option::Option::Some" and len(y0[2]) == 1):
@@ -163,7 +163,7 @@ def run(ctx):
             gterm = pr.call_term(gt, gb)
             if not is_get(gterm):
                 continue
-            for (b, lab, st) in I.option_edges(fn, pr, lambda t_, g_=gterm: P.strip(t_, calls=False) == g_):
+            for (b, lab, st) in I.option_edges(fn, pr, lambda t_, g_=gterm: I.unopt(t_) == g_):
                 if st == "some":
                     present.setdefault(P.strip(gterm[2][1]), []).append((b, lab))
         probe = None
@@ -183,7 +183,7 @@ def run(ctx):
             # value = *unwrap(get(map, &probe)) or the payload of `if let Some(w) = get(map, &probe)` / `get(..)?`
             g = I.option_payload(val)
             if g is not None:
-                g = P.strip(g, calls=False)
+                g = I.unopt(g)
                 if is_get(g) and P.strip(g[2][1]) == probe:
                     weight = val
             if weight is None:
@@ -191,10 +191,17 @@ def run(ctx):
             # probe membership
             nprobe = P.strip(P.narrow_deep(probe))
             own_first = (nprobe[0] == "field" and nprobe[1][0] == "variant" and nprobe[1][2] == "Some" and nprobe[1][1][0] == "call"
-                         and nprobe[1][1][1].endswith("::next") and len(nprobe[1][1][2]) == 1)
+                         and (nprobe[1][1][1].endswith("::next") or nprobe[1][1][1] == "core::slice::<impl [T]>::first")
+                         and len(nprobe[1][1][2]) == 1)
             if own_first:
                 it_ = P.strip(nprobe[1][1][2][0], calls=False)
-                own_first = it_[0] == "call" and it_[1] == f"<{RANK_PAIR} as std::iter::IntoIterator>::into_iter" and P.strip(it_[2][0]) == key
+                if nprobe[1][1][1] == "core::slice::<impl [T]>::first":
+                    # `iter.as_slice().first()`: a peek at the first remaining combo, nothing is consumed
+                    own_first = it_[0] == "call" and it_[1].endswith("IntoIter::<T, A>::as_slice") and len(it_[2]) == 1
+                    if own_first:
+                        it_ = P.strip(it_[2][0], calls=False)
+                        nprobe = ("field", ("variant", ("call", "peek", (it_,)), "Some"), 0)
+                own_first = own_first and it_[0] == "call" and it_[1] == f"<{RANK_PAIR} as std::iter::IntoIterator>::into_iter" and P.strip(it_[2][0]) == key
             if own_first:
                 # the probe is the first combo of the reported pair's own iterator: a member of its table by construction.
                 # Nothing else may be taken from that iterator before all() runs over it
@@ -205,7 +212,8 @@ def run(ctx):
                         continue
                     if P.strip(pr.operand(ct["args"][0]), calls=False) == it_term and I.callee_path(ct) != it_term[1]:
                         takers.append(ct["callee"].get("name"))
-                if sorted(takers) not in (["next"], ["all", "next"]):
+                takers = [n_ for n_ in takers if n_ != "as_slice"]        # a view, takes nothing
+                if sorted(takers) not in (["next"], ["all", "next"], ["all"], []):
                     problems.append(f"the pair's iterator is consumed by {sorted(takers)} before/besides the probe and all()")
             elif not (probe[0] == "call" and probe[1] == CARD_PAIR + "::new"):
                 problems.append("probe is not CardPair::new(..)")
